@@ -32,6 +32,7 @@ FPB == { {}, {P1}, {"unknown"}, {"unknown", P2}, {"other"} }
 ListsB == UNION {[1..n -> 1..Len(RB)] : n \in 0..MaxList}
 RecsOf(ix) == [k \in 1..Len(ix) |-> RB[ix[k]]]
 LimsMC == {-1, 0, 1, 2, 3, 20}      \* effective caps (negative numbers cannot be written in a cfg)
+LimsQ  == {-1, 0, 1, 2}
 
 VARIABLES recs, fa, fp, lim,     \* the request (constant during a behaviour); lim = effective cap
           i,                     \* records pulled from the delegate's iterator so far
